@@ -25,11 +25,15 @@ BADG = [SINK, ["fractions", "Fraction"], ["collections", "Counter"], ["torch", "
         # qualified names hanging off an allow-listed object (STACK_GLOBAL, protocol 4): not in the allowlist
         ["collections", "OrderedDict.fromkeys"], ["torch", "Size.count"],
         # the name one addition permits, looked up in the module of another addition (fractions re-exports Decimal)
-        ["fractions", "Decimal"], ["decimal", "Context"]]
+        ["fractions", "Decimal"], ["decimal", "Context"],
+        # an addition a.b.c read as (a, "b.c") instead of (a.b, "c")
+        ["collections", "abc.Mapping"]]
 ADDS = [None, ["pickle.loads", "_pickle.loads"], ["_pickle.loads", "fractions.Fraction"],
         ["pickle.loads", "verif_sink.record"],
         # two additions in two modules the allowlist does not know: each permits exactly its own pair
-        ["fractions.Fraction", "decimal.Decimal"]]
+        ["fractions.Fraction", "decimal.Decimal"],
+        # an addition with two dots permits (collections.abc, Mapping) and not (collections, abc.Mapping)
+        ["collections.abc.Mapping"]]
 ENTRY_KIND = {"pl": "pickle.load", "pls": "pickle.loads", "cl": "_pickle.load", "cls": "_pickle.loads"}
 LEGACY_RETS = ["magic", "proto", "dict", "none", "list"]
 KNOWN_SIGS = ["torch.storage._load_from_bytes/legacy", "torch.storage._load_from_bytes/zip"]
@@ -150,7 +154,8 @@ def grid_cases(table):
     own = [["fractions", "Fraction"], ["decimal", "Decimal"]]
     for entry in ENTRY_KIND:
         for ai in range(len(ADDS)):
-            for g in own + [["fractions", "Decimal"], ["decimal", "Context"], BADG[2]]:
+            for g in own + [["fractions", "Decimal"], ["decimal", "Context"], BADG[2],
+                            ["collections.abc", "Mapping"], ["collections", "abc.Mapping"]]:
                 for wrap in (0, 1):
                     ids = Ids()
                     evs = [glob_ev(GOOD[0], ids), glob_ev(own[0], ids), glob_ev(g, ids), glob_ev(GOOD[2], ids)]
